@@ -783,3 +783,13 @@ fn c14_unsub_unknown_conn_kf() {
     let w = named_case(&[], Op::Unsub, 0, &[X]);
     kani::cover!(true, "reached");
 }
+
+/// a client holding channel X AND pattern P unsubscribes its last channel: the pattern
+/// subscription (and the connection record that carries it) must survive
+#[kani::proof]
+#[kani::unwind(6)]
+#[kani::stub(alloc::fmt::format, fmt_stub)]
+fn c14_unsub_channel_keeps_pattern() {
+    let w = named_case(&[(0, X), (0, P)], Op::Unsub, 0, &[X]);
+    kani::cover!(w & 1 != 0, "existing subscription removed");
+}
